@@ -114,6 +114,22 @@ impl RequestHandler<Rename> for RenameHandler {
             Some((DefinitionType::Symbol(_), def)) => def.location.as_ref().map(|l| l.span),
             _ => None,
         };
+        // One and the same occurrence can stand for several symbols (a name in a macro body, per invocation): renaming
+        // one of them would take the occurrence away from the others
+        if let Some(written_at) = written_at {
+            let shared = defs
+                .iter()
+                .filter(|(_, def)| def.location.as_ref().map(|l| l.span) == Some(written_at))
+                .flat_map(|(_, def)| def.usages())
+                .any(|dl| {
+                    codegen
+                        .analysis()
+                        .is_used_by_symbol_defined_elsewhere(dl.span, written_at)
+                });
+            if shared {
+                return Ok(None);
+            }
+        }
         let mut edits: Vec<(Url, TextEdit)> = vec![];
         for (def_ty, def) in defs {
             if let DefinitionType::Symbol(def_symbol_nx) = def_ty {
